@@ -2,7 +2,7 @@
 # quick regression after an engine change: every check on the unchanged tree + the engine controls
 cd "$(dirname "$0")/.."
 rc=0
-for c in C01 C02 C03 C04 C05 C06 C07 C08 C09 C10 C11 C14 C15 C16 C18 C19 C20; do
+for c in C01 C02 C03 C04 C05 C06 C07 C08 C09 C10 C11 C13 C14 C15 C16 C18 C19 C20; do
   out=$(./agv check $c 2>&1); r=$?
   if [ $r -ne 0 ]; then echo "$out" | tail -3; rc=1; fi
 done
